@@ -65,6 +65,21 @@ CHECKS = {
          "Sampling of the case table; ownership and pre-signed patterns are what the recorder constructed.",
          "TLA+ postcondition evaluated by TLC on recorded calls of wallet.SignTransaction",
          "DESIGN.md 5 C13, 9"),
+ "C17": ("wallets", "model_checking",
+         "WalletRecords.tla: every wallet entry's address is the address of its public key and its public key the one of its secret key (where held), and the entry addresses of every chain equal the single-batch reference derivation from the same seed (passphrase, account, chain) of the same length - whatever sequence of NewAddresses batches, scans with activity patterns, encrypt/decrypt, recover and save/reload produced them; a watch-only (xpub) wallet equals the external chain of the bip44 wallet of the same mnemonic. MCWalletService model-checks that counts only grow by the requested amounts under every interleaving with failing saves. Seeded operation sequences run on a real wallet.Service over deterministic, bip44, xpub and collection wallets; after each operation memory, a freshly started service and the facts are recorded and TLC evaluates the invariants.",
+         "The reference derivation uses the same code in one batch: the check is independence of batching and persistence, not conformance to BIP32/39/44 (C16, not applicable).",
+         "TLA+ invariants evaluated by TLC on records of a real wallet service; TLC model checking of the service state machine",
+         "DESIGN.md 4.8, 5 C17, 9"),
+ "C18": ("wallets", "model_checking",
+         "WalletRecords.tla: a locked wallet's serialised form and file contain neither its seed, passphrase nor any secret key (searched as text, base64 and hex against the reference derivation), unlocking with the right password restores exactly the seed, passphrase, secret keys and entries, any other password is rejected - checked on every encrypted wallet reached by the seeded service sequences (both ciphers). Both ciphers are also called directly on damaged ciphertexts (truncated, empty, '//8=', bit flips before and after base64, length field beyond the data, wrong nonce/salt, hostile scrypt parameters, random bytes, wrong password): plaintext or error, never a panic, and never a wrong plaintext for an untouched ciphertext.",
+         "Fast cipher variants (sha256-xor, scrypt N=2^4..2^15) stand for the default scrypt parameters; scrypt memory exhaustion by hostile parameters is not exercised.",
+         "TLA+ invariants evaluated by TLC on records of a real wallet service and of direct cipher calls",
+         "DESIGN.md 4.8, 5 C18, 9"),
+ "C19": ("wallets", "model_checking",
+         "MCWalletService (TLC, exhaustive on a small universe with failing saves): the wallets a fresh service would load equal memory (temporary and unloaded wallets excepted), a fresh service can always start, a failed operation changes nothing. On a real wallet.Service every operation of seeded sequences (create, create temporary, new addresses, scan, label, encrypt, decrypt, recover, unload, secret updates; wrong passwords, unknown ids, unsupported types) is followed by starting a FRESH wallet.NewService on the same directory; TLC checks per record: the fresh service starts, its wallets equal memory's persistent ones field by field (type, fingerprint, encryption state, label, every address), a failed operation left memory unchanged, no two wallets share a fingerprint in memory or on disk, and the named wallet changed as the operation says while all others did not.",
+         "Explicitly unloaded wallets are treated like temporary ones (they reappear at the next start); save failures are explored in the model only (the sandbox runs as root, permissions cannot make a save fail).",
+         "TLA+ spec + TLC exhaustive model checking; record->validate of a real wallet service with a fresh reload after every step",
+         "DESIGN.md 4.8, 5 C19, 9"),
  "C20": ("filesave", "fault_enumeration",
          "The real save of a wallet file (wallet.Save) and of a key-value storage file (kvstorage flush), both through file.SaveBinary, runs once in a child process under strace; the recorded file-system operations (open/truncate, writes with their lengths, rename, unlink, fsync) are the PROGRAM that FileSave.tla interprets on an abstract directory; TLC explores every crash point of that program (after each operation, inside each write) and checks RecoverOldOrNew. Each crash point is then materialised (the operations replayed on a copy of the pre-save directory, the last write cut at 1 byte / half / all but one byte) and loaded by the real start-up code (wallet.NewService, kvstorage.NewManager); TLC checks every image record: the node starts and finds the old or the new content, as the model predicts.",
          "Process crash, not power failure: bytes handed to write() are in the file, renames are atomic and durable; one save per file kind (all save paths go through file.SaveBinary).",
